@@ -30,11 +30,36 @@ Subset (anything else raises Untranslatable naming the function, the line and th
                `from datetime import timedelta`; `str(self)` follows a `__str__` of the class
                (which must itself be a translated target), other uses of `self` as an int require
                the class to derive from exactly `int` without overriding the special method.
-Types are inferred (Int Str Bytes Bool TD OptStr PyDate PyDateTime); a type clash is refused.
+Types are inferred (Int Str Bytes Bool TD OptStr PyDate PyDateTime ...); a type clash is refused.
+
+Wave 2 (decoders and helpers; groups `dec` -> Gen/BodiesDec.lean, `parser` -> Gen/BodiesParser.lean):
+  functions    staticmethod / classmethod / module-level functions with arguments (types declared in
+               TARGETS; an argument declared `None` is SPECIALISED to its default `None`: tests that
+               are decided by that - `isinstance(x, str)`, `x is not None`, `if x` - are evaluated
+               at translation time, the branch not taken is not translated and is named in the
+               comment of the definition).
+  exceptions   a function that can raise becomes `Py T = Except Exc T` (a `do` block).  Exceptions
+               come only from the partial runtime functions and from `raise ValueError(...)`.
+               `try: BODY except <classes>: raise ValueError(...) [from e]` (one handler, no
+               else/finally) is `remap <classes> BODY` / `remapAll BODY`; BODY either returns/raises
+               on every path or on none.  Any other handler is refused.
+  partial      `int(<str>)`, `int(<str or str-or-None> or <int literal>)`, `date(y, m, d)`,
+               `time(h, m, s)`, `datetime(y, m, d, h, mi, s)` (also through `f(*t)` where `t` was
+               assigned a tuple display), `m.groups()`; `cls(x)` for an int subclass whose `__new__`
+               is `self = super().__new__(cls, *args, **kwargs)` plus attribute assignments.
+               They are hoisted in evaluation order; inside `a or b`, `a and b`, `x if c else y`
+               (lazily evaluated positions) they are refused.
+  also         `timedelta(weeks=, days=, hours=, minutes=, seconds=)` on ints, `td >= td`, `td <= td`;
+               `s[a:b]`, `s[a:]`, `s[:b]` with literal bounds >= 0; `len(s)`; `s in ('a', 'b')`;
+               `s.replace('a', 'b')`; `sep.join(f(x) for x in lst)`; `cls.<NAME>` where NAME is a
+               class-level literal; calls of functions translated earlier in the same group;
+               `REGEX.match(s)` (the match object - None or the tuple of groups, arity read from the
+               compiled pattern - is a PARAMETER) and `REGEX.search(s)` (a predicate parameter).
 """
 import ast
 import os
 import sys
+import re
 from collections import namedtuple
 
 sys.path.insert(0, os.path.dirname(os.path.abspath(__file__)))
@@ -46,7 +71,19 @@ class Untranslatable(X.Untranslatable):
 
 
 LEAN_TYPE = {'Int': 'Int', 'Str': 'Str', 'Bytes': 'Str', 'Bool': 'Bool', 'TD': 'TD', 'OptStr': 'Option Str',
-             'PyDate': 'PyDate', 'PyDateTime': 'PyDateTime', 'PyTime': 'PyTime'}
+             'PyDate': 'PyDate', 'PyDateTime': 'PyDateTime', 'PyTime': 'PyTime', 'None': 'Unit', 'StrList': 'List Str',
+             'Truth': 'Bool'}
+
+
+def lean_type(t):
+    """translator type -> Lean type; `MatchN` = result of REGEX.match: None or N groups (each str or None)"""
+    if t.startswith('Match'):
+        return 'Option (' + ' × '.join(['Option Str'] * int(t[5:])) + ')'
+    if t.startswith('Groups'):
+        return ' × '.join(['Option Str'] * int(t[6:]))
+    return LEAN_TYPE.get(t, t)
+
+
 RECORDS = {  # attribute reads: type -> attr -> (lean projection, type)
     'TD': {'days': ('days', 'Int'), 'seconds': ('secondsI', 'Int')},
     'PyDate': {k: (k, 'Int') for k in ('year', 'month', 'day')},
@@ -59,11 +96,17 @@ LEAN_KEYWORDS = {'at', 'do', 'end', 'from', 'fun', 'have', 'in', 'let', 'open', 
                  'universe', 'example', 'abbrev', 'inductive', 'deriving', 'extends', 'using', 'calc', 'suffices',
                  'obtain', 'return', 'for', 'unless', 'try', 'catch', 'finally', 'macro', 'syntax', 'notation'}
 
-# What is translated.  self_type: the builtin the class derives from when `self` itself is used as a
-# value; self_attrs: `self.<attr>` -> (parameter, type); externals: callee -> (argument parameters, result
-# parameter, type): the RESULT of that call is a parameter.  optional: a failure is recorded in the
-# header instead of breaking the tie (used where the hand model is tied by correspondence only).
-Target = namedtuple('Target', 'file cls fn lean self_type self_attrs externals optional')
+# What is translated.  group: which generated file; cls None: module-level function; self_type: the builtin the
+# class derives from when `self` itself is used as a value; self_attrs: `self.<attr>` -> (parameter, type);
+# args: argument -> type ('None' = specialised to the default None); optional: a failure is recorded in the header
+# instead of breaking the tie.  externals: callee (as written) -> how external code enters as a PARAMETER:
+#   (args, param, type)          the RESULT of that call with exactly these arguments is the parameter
+#   ('fun', param, argtypes, rtype)   the callee is a function parameter, applied to the translated arguments
+#   ('pred', param)              REGEX.search(s): truthiness of the match, a predicate parameter Str -> Bool
+#   ('match', param, REGEX)      REGEX.match(s): the match object (None or its groups) is the parameter
+#   ('ctor_int',)                cls(x) of an int subclass whose __new__ only wraps int.__new__ (shape checked)
+Target = namedtuple('Target', 'file cls fn lean self_type self_attrs externals optional group args',
+                    defaults=('enc', None))
 TARGETS = [
     Target('prop.py', 'vDuration', 'to_ical', 'vDuration_to_ical', None, {'td': ('td', 'TD')}, {}, False),
     Target('prop.py', 'vUTCOffset', 'to_ical', 'vUTCOffset_to_ical', None, {'td': ('td', 'TD')}, {}, False),
@@ -75,11 +118,34 @@ TARGETS = [
     Target('prop.py', 'vMonth', 'to_ical', 'vMonth_to_ical', 'Int', {'leap': ('leap', 'Bool')}, {}, False),
     Target('prop.py', 'vBoolean', 'to_ical', 'vBoolean_to_ical', 'Int', {}, {}, False),
     Target('prop.py', 'vInt', 'to_ical', 'vInt_to_ical', 'Int', {}, {}, False),
+    # ---- decoders
+    Target('prop.py', 'vDate', 'from_ical', 'vDate_from_ical', None, {}, {}, False, 'dec', {'ical': 'Str'}),
+    Target('prop.py', 'vTime', 'from_ical', 'vTime_from_ical', None, {}, {}, False, 'dec', {'ical': 'Str'}),
+    Target('prop.py', 'vDatetime', 'from_ical', 'vDatetime_from_ical', None, {},
+           {'tzp.localize_utc': ('fun', 'localize_utc', ['PyDateTime'], 'PyDateTime')}, False, 'dec',
+           {'ical': 'Str', 'timezone': 'None'}),
+    Target('prop.py', 'vUTCOffset', 'from_ical', 'vUTCOffset_from_ical', None, {}, {}, False, 'dec', {'ical': 'Str'}),
+    Target('prop.py', 'vDuration', 'from_ical', 'vDuration_from_ical', None, {},
+           {'DURATION_REGEX.match': ('match', 'm', 'DURATION_REGEX')}, False, 'dec', {'ical': 'Str'}),
+    Target('prop.py', 'vInt', 'from_ical', 'vInt_from_ical', None, {}, {'cls': ('ctor_int',)}, False, 'dec',
+           {'ical': 'Str'}),
+    # ---- parser helpers
+    Target('parser.py', None, 'dquote', 'dquote', None, {}, {'QUOTABLE.search': ('pred', 'quotable_search')}, False,
+           'parser', {'val': 'Str'}),
+    Target('parser.py', None, 'q_join', 'q_join', None, {}, {}, False, 'parser', {'lst': 'StrList', 'sep': 'Str'}),
 ]
 
-V = namedtuple('V', 'lean type lits')          # a translated expression; lits: possible str literals or None
+# a translated expression; lits: possible str literals or None; elts: the components of a tuple display
+V = namedtuple('V', 'lean type lits elts', defaults=(None,))
 Tail = namedtuple('Tail', 'names make')        # what a block continues with when its statements run out
-Done = namedtuple('Done', 'lean params rtype')  # a translated function
+Done = namedtuple('Done', 'lean params rtype monadic nargs', defaults=(False, 0))  # a translated function
+EXC = {'ValueError': ['valueError'], 'OverflowError': ['overflowError'], 'KeyError': ['keyError'],
+       'IndexError': ['indexError'], 'AttributeError': ['attributeError'], 'TypeError': ['typeError'],
+       'LookupError': ['keyError', 'indexError'], 'ArithmeticError': ['overflowError']}
+
+
+class NeedMonad(Exception):
+    """the function can raise: translate it again into `Py T`"""
 
 
 def lname(name):
@@ -127,7 +193,8 @@ def module_bindings(tree):
 
 
 def has_return(nodes):
-    return any(isinstance(n, ast.Return) for s in nodes for n in ast.walk(s))
+    """does a `return` or `raise` occur inside (the statement can end the function)"""
+    return any(isinstance(n, (ast.Return, ast.Raise)) for s in nodes for n in ast.walk(s))
 
 
 class Fn:
@@ -136,10 +203,15 @@ class Fn:
     def __init__(self, target, cls_node, func, registry, modnames=None):
         self.t, self.cls, self.func, self.registry = target, cls_node, func, registry
         self.modnames = modnames or {}
-        self.qual = f'{target.file[:-3]}.{target.cls}.{target.fn}'
+        self.qual = f'{target.file[:-3]}.' + (f'{target.cls}.' if target.cls else '') + target.fn
         self.used = []            # parameters actually referenced, in order of first use
         self.rtype = None
         self.fresh = 0
+        self.monadic = False      # the function can raise: Py T, `do` block
+        self.pre = []             # hoisted partial calls of the statement being translated
+        self.lazy = 0             # > 0 inside an operand that Python may not evaluate
+        self.notes = []           # tests decided at translation time (specialised arguments)
+        self.tree = None          # module AST (regex sources)
 
     def fail(self, node, what):
         raise Untranslatable(f'{self.qual}: line {getattr(node, "lineno", "?")}: {what}')
@@ -148,6 +220,49 @@ class Fn:
         if (name, typ) not in self.used:
             self.used.append((name, typ))
         return V(name, typ, None)
+
+    def hoist(self, node, lean, typ):
+        """a call that can raise: bound by `←` before the statement, in evaluation order"""
+        if self.lazy:
+            self.fail(node, f'`{ast.unparse(node)[:40]}` can raise and stands where Python may not evaluate it')
+        if not self.monadic:
+            raise NeedMonad()
+        self.fresh += 1
+        self.pre.append(f"let t{self.fresh}' : {lean_type(typ)} ← {lean}")
+        return V(f"t{self.fresh}'", typ, None)
+
+    def take_pre(self):
+        p, self.pre = self.pre, []
+        return p
+
+    def lazily(self, f, *a):
+        self.lazy += 1
+        try:
+            return f(*a)
+        finally:
+            self.lazy -= 1
+
+    def static(self, node, env):
+        """a test that the declared argument types decide: True / False, else None"""
+        if isinstance(node, ast.UnaryOp) and isinstance(node.op, ast.Not):
+            st = self.static(node.operand, env)
+            return None if st is None else not st
+        if isinstance(node, ast.Name) and node.id in env and env[node.id].type == 'None':
+            return False
+        if isinstance(node, ast.Compare) and len(node.ops) == 1 and isinstance(node.ops[0], (ast.Is, ast.IsNot)) \
+                and isinstance(node.comparators[0], ast.Constant) and node.comparators[0].value is None \
+                and isinstance(node.left, ast.Name) and node.left.id in env \
+                and env[node.left.id].type in ('None', 'Str', 'Int', 'TD', 'StrList'):
+            return (env[node.left.id].type == 'None') == isinstance(node.ops[0], ast.Is)
+        if isinstance(node, ast.Call) and isinstance(node.func, ast.Name) and node.func.id == 'isinstance' \
+                and 'isinstance' not in self.modnames and len(node.args) == 2 and not node.keywords \
+                and isinstance(node.args[0], ast.Name) and node.args[0].id in env and isinstance(node.args[1], ast.Name):
+            typ, what = env[node.args[0].id].type, node.args[1].id
+            if what == 'str' and 'str' not in self.modnames and typ in ('None', 'Str'):
+                return typ == 'Str'
+            if what == 'cls' and self.cls is not None and not self.cls.bases and typ in ('None', 'Str', 'Int'):
+                return False        # a str / int / None is not an instance of a class that derives from object only
+        return None
 
     def builtin_method_ok(self, node, *dunder):
         """`self` is used as the builtin it derives from: the class must derive from exactly that builtin and
@@ -164,15 +279,20 @@ class Fn:
     def truth(self, v, node):
         if v.type == 'Bool':
             return v.lean
-        if v.type in ('Int', 'Str', 'Bytes', 'TD'):
+        if v.type == 'Truth':
+            return v.lean
+        if v.type in ('Int', 'Str', 'Bytes', 'TD', 'OptStr', 'None'):
             return f'(truthy {v.lean})'
+        if v.type.startswith('Match'):
+            return f'{v.lean}.isSome'
         self.fail(node, f'truthiness of a value of type {v.type}')
 
     def test(self, node, env):
         """an expression in a boolean context -> Lean Bool term"""
         if isinstance(node, ast.BoolOp):
             op = ' && ' if isinstance(node.op, ast.And) else ' || '
-            return '(' + op.join(self.test(x, env) for x in node.values) + ')'
+            parts = [self.test(node.values[0], env)] + [self.lazily(self.test, x, env) for x in node.values[1:]]
+            return '(' + op.join(parts) + ')'
         if isinstance(node, ast.UnaryOp) and isinstance(node.op, ast.Not):
             return f'(!{self.test(node.operand, env)})'
         v = self.expr(node, env)
@@ -198,7 +318,25 @@ class Fn:
             if any(b >= 128 for b in c):
                 self.fail(node, 'non-ASCII bytes literal')
             return V(f'({X.lstr(c)} : Str)', 'Bytes', None)
+        if c is None:
+            return V('()', 'None', None)
         self.fail(node, f'constant {c!r}')
+
+    def e_Tuple(self, node, env):
+        """a tuple display: only to be unpacked (`a, b = ...`) or spread (`f(*t)`)"""
+        return V('', 'Tuple', None, [self.expr(e, env) for e in node.elts])
+
+    def e_Subscript(self, node, env):
+        v, sl = self.expr(node.value, env), node.slice
+        bound = lambda b: b is None or (isinstance(b, ast.Constant) and type(b.value) is int and b.value >= 0)  # noqa: E731
+        if v.type != 'Str' or not isinstance(sl, ast.Slice) or sl.step is not None or not bound(sl.lower) \
+                or not bound(sl.upper) or (sl.lower is None and sl.upper is None):
+            self.fail(node, f'subscript `{ast.unparse(node)[:40]}` (only str slices with literal bounds >= 0)')
+        if sl.upper is None:
+            return V(f'(pySliceFrom {v.lean} {sl.lower.value})', 'Str', None)
+        if sl.lower is None:
+            return V(f'(pySliceTo {v.lean} {sl.upper.value})', 'Str', None)
+        return V(f'(pySlice {v.lean} {sl.lower.value} {sl.upper.value})', 'Str', None)
 
     def e_Name(self, node, env):
         if node.id == 'self':
@@ -210,6 +348,12 @@ class Fn:
         return env[node.id]
 
     def e_Attribute(self, node, env):
+        if isinstance(node.value, ast.Name) and node.value.id == 'cls' and self.cls is not None and 'cls' not in env:
+            for st in self.cls.body:     # a class-level literal, read from the source
+                if isinstance(st, ast.Assign) and len(st.targets) == 1 and isinstance(st.targets[0], ast.Name) \
+                        and st.targets[0].id == node.attr and isinstance(st.value, ast.Constant):
+                    return self.e_Constant(st.value, env)
+            self.fail(node, f'cls.{node.attr} is not a class-level literal')
         if isinstance(node.value, ast.Name) and node.value.id == 'self':
             if node.attr not in self.t.self_attrs:
                 self.fail(node, f'attribute self.{node.attr} is not a declared parameter')
@@ -264,14 +408,17 @@ class Fn:
             return V(f'({a.lean} {"==" if k == "Eq" else "!="} {b.lean})', 'Bool', None)
         if ts == ('OptStr', 'Str') and k in ('Eq', 'NotEq'):
             return V(f'({a.lean} {"==" if k == "Eq" else "!="} some {b.lean})', 'Bool', None)
-        if ts == ('TD', 'TD') and k in ('Lt', 'Gt'):
-            x, y = (a, b) if k == 'Lt' else (b, a)
-            return V(f'(TD.lt {x.lean} {y.lean})', 'Bool', None)
+        if ts == ('TD', 'TD') and k in ('Lt', 'Gt', 'LtE', 'GtE'):
+            x, y = (a, b) if k in ('Lt', 'LtE') else (b, a)
+            return V(f'(TD.{"lt" if k in ("Lt", "Gt") else "le"} {x.lean} {y.lean})', 'Bool', None)
+        if a.type == 'Str' and b.type == 'Tuple' and k in ('In', 'NotIn') and all(e.lits is not None for e in b.elts):
+            lst = '([' + ', '.join(e.lean for e in b.elts) + '] : List Str)'
+            return V(f'({"" if k == "In" else "!"}{lst}.contains {a.lean})', 'Bool', None)
         self.fail(node, f'comparison {k} on {a.type}, {b.type}')
 
     def e_BoolOp(self, node, env):
         """value context: `a or b` / `a and b` return an operand"""
-        vals = [self.expr(x, env) for x in node.values]
+        vals = [self.expr(node.values[0], env)] + [self.lazily(self.expr, x, env) for x in node.values[1:]]
         if len({v.type for v in vals}) != 1:
             self.fail(node, 'and/or over operands of different types, used as a value')
         self.truth(vals[0], node)
@@ -283,7 +430,8 @@ class Fn:
         return acc
 
     def e_IfExp(self, node, env):
-        c, a, b = self.test(node.test, env), self.expr(node.body, env), self.expr(node.orelse, env)
+        c = self.test(node.test, env)
+        a, b = self.lazily(self.expr, node.body, env), self.lazily(self.expr, node.orelse, env)
         if a.type != b.type:
             self.fail(node, f'conditional expression of types {a.type} and {b.type}')
         lits = a.lits | b.lits if a.lits is not None and b.lits is not None else None
@@ -317,36 +465,147 @@ class Fn:
             parts.append(f'(fmtZ {int(spec[0].value[1:])} {v.lean})')
         return V('(' + ' ++ '.join(parts) + ')' if parts else '([] : Str)', 'Str', None)
 
+    def call_args(self, node, env):
+        """positional arguments; `*t` spreads a tuple display"""
+        out = []
+        for a in node.args:
+            if isinstance(a, ast.Starred):
+                v = self.expr(a.value, env)
+                if v.type != 'Tuple':
+                    self.fail(node, f'`*{ast.unparse(a.value)}` is not a tuple display')
+                out += v.elts
+            else:
+                out.append(self.expr(a, env))
+        return out
+
+    def int_of(self, node, arg, env):
+        """`int(x)` for a str: CPython's int(); `int(x or k)`: x if it is true, else the int literal k"""
+        if isinstance(arg, ast.BoolOp) and isinstance(arg.op, ast.Or) and len(arg.values) == 2 \
+                and isinstance(arg.values[1], ast.Constant) and type(arg.values[1].value) is int:
+            v = self.expr(arg.values[0], env)
+            if v.type in ('Str', 'OptStr'):
+                f = 'intOfStrOr' if v.type == 'Str' else 'intOfOptStrOr'
+                return self.hoist(node, f'{f} {v.lean} ({arg.values[1].value} : Int)', 'Int')
+        v = self.expr(arg, env)
+        return self.hoist(node, f'intOfStr {v.lean}', 'Int') if v.type == 'Str' else None
+
+    def ctor_int_ok(self, node):
+        """`cls(x)`: the class derives from exactly `int` and its __new__ only wraps int.__new__"""
+        new = [st for st in self.cls.body if isinstance(st, ast.FunctionDef) and st.name == '__new__']
+        ok = [ast.unparse(b) for b in self.cls.bases] == ['int'] and len(new) == 1 and new[0].args.vararg is not None \
+            and ast.unparse(new[0].body[0]) == 'self = super().__new__(cls, *args, **kwargs)' \
+            and ast.unparse(new[0].body[-1]) == 'return self' \
+            and all(isinstance(st, ast.Assign) and isinstance(st.targets[0], ast.Attribute)
+                    and ast.unparse(st.targets[0].value) == 'self' for st in new[0].body[1:-1]) \
+            and not any(isinstance(st, ast.FunctionDef) and st.name == '__init__' for st in self.cls.body)
+        if not ok:
+            self.fail(node, f'{self.t.cls}.__new__ is not `self = super().__new__(cls, *args, **kwargs)` + attributes')
+
     def e_Call(self, node, env):
-        if node.keywords:
-            self.fail(node, f'call with keyword arguments `{ast.unparse(node)[:50]}`')
-        fn = node.func
+        fn, callee = node.func, ast.unparse(node.func)
+        ext = self.t.externals.get(callee)
+        if ext is not None and isinstance(ext[0], str) and (not isinstance(fn, ast.Name) or fn.id not in env):
+            if node.keywords:
+                self.fail(node, f'call with keyword arguments `{ast.unparse(node)[:50]}`')
+            args = self.call_args(node, env)
+            if ext[0] == 'fun':
+                if [a.type for a in args] != ext[2]:
+                    self.fail(node, f'external call {callee}: argument types {[a.type for a in args]}, declared {ext[2]}')
+                f = self.param(ext[1], ' → '.join(lean_type(t) for t in ext[2] + [ext[3]]))
+                return V('(' + ' '.join([f.lean] + [a.lean for a in args]) + ')', ext[3], None)
+            if ext[0] == 'pred' and [a.type for a in args] == ['Str']:
+                return V(f'({self.param(ext[1], "Str → Bool").lean} {args[0].lean})', 'Truth', None)
+            if ext[0] == 'match' and [a.type for a in args] == ['Str'] and isinstance(fn, ast.Attribute) \
+                    and fn.attr == 'match' and ast.unparse(fn.value) == ext[2]:
+                n = re.compile(X.regex_source(self.tree, ext[2])).groups
+                return self.param(ext[1], f'Match{n}')
+            if ext[0] == 'ctor_int' and [a.type for a in args] == ['Str']:
+                self.ctor_int_ok(node)
+                return self.hoist(node, f'intOfStr {args[0].lean}', 'Int')
+            self.fail(node, f'external call `{ast.unparse(node)[:50]}` does not have the declared shape')
         if isinstance(fn, ast.Attribute):
+            if node.keywords:
+                self.fail(node, f'call with keyword arguments `{ast.unparse(node)[:50]}`')
             if fn.attr == 'encode' and len(node.args) == 1 and isinstance(node.args[0], ast.Constant) \
                     and node.args[0].value == 'utf-8':
                 v = self.expr(fn.value, env)
                 if v.type != 'Str':
                     self.fail(node, f'.encode on a value of type {v.type}')
                 return V(v.lean, 'Bytes', None)
+            if fn.attr == 'groups' and not node.args:
+                v = self.expr(fn.value, env)
+                if v.type.startswith('Match'):
+                    g, n = self.hoist(node, f'groupsOf {v.lean}', 'Groups' + v.type[5:]), int(v.type[5:])
+                    projs = [g.lean + '.2' * i + ('.1' if i < n - 1 else '') for i in range(n)]
+                    return V('', 'Tuple', None, [V(p if n > 1 else g.lean, 'OptStr', None) for p in projs])
+            if fn.attr == 'replace' and len(node.args) == 2 and all(
+                    isinstance(a, ast.Constant) and isinstance(a.value, str) for a in node.args) and node.args[0].value:
+                v = self.expr(fn.value, env)
+                if v.type == 'Str':
+                    return V(f'(replaceAll {X.lstr(node.args[0].value)} {X.lstr(node.args[1].value)} {v.lean})', 'Str', None)
+            if fn.attr == 'join' and len(node.args) == 1 and isinstance(node.args[0], ast.GeneratorExp):
+                g, sep = node.args[0], self.expr(fn.value, env)
+                c = g.generators[0]
+                if sep.type == 'Str' and len(g.generators) == 1 and not c.ifs and not c.is_async and isinstance(c.target, ast.Name):
+                    it = self.expr(c.iter, env)
+                    if it.type == 'StrList':
+                        x = lname(c.target.id)
+                        elt = self.lazily(self.expr, g.elt, dict(env, **{c.target.id: V(x, 'Str', None)}))
+                        if elt.type == 'Str':
+                            return V(f'(joinWith {sep.lean} ({it.lean}.map (fun {x} => {elt.lean})))', 'Str', None)
             self.fail(node, f'method call `.{fn.attr}(...)`')
         if not isinstance(fn, ast.Name):
             self.fail(node, f'call `{ast.unparse(node)[:50]}`')
         if fn.id in env:
             self.fail(node, f'call of the local variable `{fn.id}`')
         if fn.id in self.t.externals:
+            if node.keywords:
+                self.fail(node, f'call with keyword arguments `{ast.unparse(node)[:50]}`')
             args, res, typ = self.t.externals[fn.id]
             got = [self.expr(a, env).lean for a in node.args]
             if got != args:
                 self.fail(node, f'external call {fn.id}({", ".join(got)}): expected arguments {args}')
             return self.param(res, typ)
-        if fn.id in ('str', 'int', 'abs') and fn.id in self.modnames:
+        d = self.registry.get((None, fn.id))
+        if d is not None and self.t.cls is None and self.modnames.get(fn.id) == 'def' and not node.keywords:
+            args = self.call_args(node, env)
+            if [a.type for a in args] != [p[1] for p in d.params[:d.nargs]]:
+                self.fail(node, f'call {fn.id}(...): argument types {[a.type for a in args]}')
+            rest = [self.param(*p).lean for p in d.params[d.nargs:]]     # its parameters become ours
+            lean = ' '.join([d.lean] + [a.lean for a in args] + rest)
+            return self.hoist(node, lean, d.rtype) if d.monadic else V(f'({lean})', d.rtype, None)
+        builtins = ('str', 'int', 'abs', 'len', 'date', 'time', 'datetime')
+        if fn.id in builtins and self.modnames.get(fn.id, f'datetime.{fn.id}') != f'datetime.{fn.id}':
             self.fail(node, f'`{fn.id}` is rebound at module level ({self.modnames[fn.id]})')
-        if fn.id == 'timedelta' and self.modnames.get('timedelta') != 'datetime.timedelta':
-            self.fail(node, '`timedelta` is not `from datetime import timedelta`')
-        if fn.id == 'timedelta' and len(node.args) == 1 and isinstance(node.args[0], ast.Constant) \
+        if fn.id in ('date', 'time', 'datetime', 'timedelta') and self.modnames.get(fn.id) != f'datetime.{fn.id}':
+            self.fail(node, f'`{fn.id}` is not `from datetime import {fn.id}`')
+        if fn.id == 'timedelta' and not node.keywords and len(node.args) == 1 and isinstance(node.args[0], ast.Constant) \
                 and type(node.args[0].value) is int and node.args[0].value == 0:
             return V('TD.zero', 'TD', None)
-        if fn.id in ('str', 'int', 'abs') and len(node.args) == 1:
+        if fn.id == 'timedelta' and not node.args and node.keywords:
+            units = ['weeks', 'days', 'hours', 'minutes', 'seconds']
+            kw = {k.arg: self.expr(k.value, env) for k in node.keywords}
+            if len(kw) == len(node.keywords) and set(kw) <= set(units) and all(v.type == 'Int' for v in kw.values()):
+                return V('(TD.ofUnits ' + ' '.join(kw[u].lean if u in kw else '(0 : Int)' for u in units) + ')', 'TD', None)
+        if node.keywords:
+            self.fail(node, f'call with keyword arguments `{ast.unparse(node)[:50]}`')
+        if fn.id in ('date', 'time', 'datetime'):
+            args = self.call_args(node, env)
+            n, f, typ = {'date': (3, 'mkPyDate', 'PyDate'), 'time': (3, 'mkPyTime', 'PyTime'),
+                         'datetime': (6, 'mkPyDateTime', 'PyDateTime')}[fn.id]
+            if len(args) == n and all(a.type == 'Int' for a in args):
+                return self.hoist(node, ' '.join([f] + [a.lean for a in args]), typ)
+            self.fail(node, f'{fn.id}(...) is not called with {n} ints')
+        if fn.id == 'int' and len(node.args) == 1 and not isinstance(node.args[0], ast.Starred):
+            v = self.int_of(node, node.args[0], env)
+            if v is not None:
+                return v
+        if fn.id == 'len' and len(node.args) == 1 and not isinstance(node.args[0], ast.Starred):
+            v = self.expr(node.args[0], env)
+            if v.type == 'Str':
+                return V(f'(strLen {v.lean})', 'Int', None)
+            self.fail(node, f'len() of a value of type {v.type}')
+        if fn.id in ('str', 'int', 'abs') and len(node.args) == 1 and not isinstance(node.args[0], ast.Starred):
             arg = node.args[0]
             v = self.expr(arg, env)
             if isinstance(arg, ast.Name) and arg.id == 'self':
@@ -371,8 +630,27 @@ class Fn:
 
     def bind(self, env, name, v):
         env = dict(env)
+        if v.type == 'Tuple':       # a tuple display bound to a name: kept symbolically (for `f(*name)`)
+            env[name] = v
+            return env, None
         env[name] = V(lname(name), v.type, v.lits)
-        return env, f'let {lname(name)} : {LEAN_TYPE[v.type]} := {v.lean}'
+        return env, f'let {lname(name)} : {lean_type(v.type)} := {v.lean}'
+
+    def ret(self, lean):
+        return f'pure {lean}' if self.monadic else lean
+
+    def temps(self, vals):
+        """bind every value to a fresh name (the components of a tuple are evaluated before it is unpacked)"""
+        lines = []
+        for i, v in enumerate(vals):
+            if v.type == 'Tuple':
+                self.fail(self.func, 'nested tuple')
+            if v.lean.startswith('t') and v.lean.endswith("'") and v.lean[1:-1].isdigit():
+                continue
+            self.fresh += 1
+            lines.append(f"let t{self.fresh}' : {lean_type(v.type)} := {v.lean}")
+            vals[i] = V(f"t{self.fresh}'", v.type, v.lits)
+        return lines
 
     def block(self, stmts, env, tail):
         """lines of a Lean term: run `stmts`, then continue with `tail`; `return e` ends the function"""
@@ -388,26 +666,37 @@ class Fn:
             # statements after a `return` never run (they are there when the rest of the function was appended to
             # a branch that already returned): dropped
             v = self.expr(s.value, env)
-            if v.type not in ('Str', 'Bytes', 'Int', 'Bool'):
+            if v.type not in ('Str', 'Bytes', 'Int', 'Bool', 'TD', 'PyDate', 'PyTime', 'PyDateTime'):
                 self.fail(s, f'return of a value of type {v.type}')
             if self.rtype not in (None, v.type):
                 self.fail(s, f'returns both {self.rtype} and {v.type}')
             self.rtype = v.type
-            return [v.lean]
+            return self.take_pre() + [self.ret(v.lean)]
+        if isinstance(s, ast.Raise):
+            e = s.exc.func if isinstance(s.exc, ast.Call) else s.exc
+            if not (isinstance(e, ast.Name) and e.id == 'ValueError' and 'ValueError' not in self.modnames):
+                self.fail(s, f'`{ast.unparse(s)[:50]}` (only `raise ValueError(...)`)')
+            if not self.monadic:
+                raise NeedMonad()
+            return ['throw Exc.valueError']      # the message is not part of the model
+        if isinstance(s, ast.Try):
+            return self.try_(s, rest, env, tail)
         if isinstance(s, ast.Assign) and len(s.targets) == 1 and isinstance(s.targets[0], ast.Name):
-            env, line = self.bind(env, s.targets[0].id, self.expr(s.value, env))
-            return [line] + self.block(rest, env, tail)
+            v = self.expr(s.value, env)
+            lines = self.take_pre()
+            if v.type == 'Tuple':
+                lines += self.temps(v.elts)
+            env, line = self.bind(env, s.targets[0].id, v)
+            return lines + ([line] if line else []) + self.block(rest, env, tail)
         if isinstance(s, ast.Assign) and len(s.targets) == 1 and isinstance(s.targets[0], ast.Tuple) \
-                and isinstance(s.value, ast.Tuple) and len(s.value.elts) == len(s.targets[0].elts) \
                 and all(isinstance(t, ast.Name) for t in s.targets[0].elts):
-            vals = [self.expr(e, env) for e in s.value.elts]      # the right side is evaluated first
-            lines = []
-            for i, v in enumerate(vals):
-                self.fresh += 1
-                lines.append(f"let t{self.fresh}' : {LEAN_TYPE[v.type]} := {v.lean}")
-                vals[i] = V(f"t{self.fresh}'", v.type, v.lits)
-            for t, v in zip(s.targets[0].elts, vals):
-                env, line = self.bind(env, t.id, v)
+            v = self.expr(s.value, env)      # the right side is evaluated first
+            if v.type != 'Tuple' or len(v.elts) != len(s.targets[0].elts):
+                self.fail(s, f'unpacking of `{ast.unparse(s.value)[:40]}`')
+            vals = list(v.elts)
+            lines = self.take_pre() + self.temps(vals)
+            for t, x in zip(s.targets[0].elts, vals):
+                env, line = self.bind(env, t.id, x)
                 lines.append(line)
             return lines + self.block(rest, env, tail)
         if isinstance(s, ast.AugAssign) and isinstance(s.target, ast.Name):
@@ -415,18 +704,73 @@ class Fn:
                 self.fail(s, f'augmented assignment to unbound `{s.target.id}`')
             v = self.binop(s, s.op, env[s.target.id], self.expr(s.value, env), s.value)
             env, line = self.bind(env, s.target.id, v)
-            return [line] + self.block(rest, env, tail)
+            return self.take_pre() + [line] + self.block(rest, env, tail)
         if isinstance(s, ast.If):
             return self.if_(s, rest, env, tail)
         self.fail(s, f'statement {type(s).__name__}: `{ast.unparse(s).splitlines()[0][:50]}`')
 
+    def try_(self, s, rest, env, tail):
+        """`try: BODY except <classes>: raise ValueError(...)`"""
+        h = s.handlers[0] if len(s.handlers) == 1 else None
+        if h is None or s.orelse or s.finalbody or len(h.body) != 1 or not isinstance(h.body[0], ast.Raise):
+            self.fail(s, 'try statement that is not `try: .. except <classes>: raise ValueError(..)`')
+        e = h.body[0].exc.func if isinstance(h.body[0].exc, ast.Call) else h.body[0].exc
+        if not (isinstance(e, ast.Name) and e.id == 'ValueError' and 'ValueError' not in self.modnames):
+            self.fail(s, f'handler `{ast.unparse(h.body[0])[:50]}` does not raise ValueError')
+        names = [] if h.type is None else [ast.unparse(x) for x in (h.type.elts if isinstance(h.type, ast.Tuple) else [h.type])]
+        if h.type is None or 'Exception' in names or 'BaseException' in names:
+            wrap = 'remapAll'
+        elif all(n in EXC and n not in self.modnames for n in names):
+            wrap = 'remap [' + ', '.join('.' + c for n in names for c in EXC[n]) + ']'
+        else:
+            self.fail(s, f'handler for `{", ".join(names)}`')
+        if not self.monadic:
+            raise NeedMonad()
+        ind = lambda ls: ['  ' + x for x in ls]   # noqa: E731
+        if has_return(s.body):      # every path of BODY must return or raise: the `try` ends the function
+
+            def through(e):
+                self.fail(s, 'a path of the try body both falls through and another returns')
+            body = self.block(s.body, env, Tail([], through))
+            body[-1] += ')'
+            return [f'{wrap} (do'] + ind(body)
+        later = reads(rest) | set(tail.names)
+        merged = [n for n in assigned(s.body) if n in later]
+        ends = []
+
+        def make(e):
+            for n in merged:
+                if n not in e:
+                    self.fail(s, f'`{n}` is read later but not bound on every path of the try body')
+            ends.append([e[n] for n in merged])
+            return ['pure (' + ', '.join(e[n].lean for n in merged) + ')']
+        self.fresh += 1
+        m = f"m{self.fresh}'"
+        body = self.block(s.body, env, Tail(merged, make))
+        body[-1] += ')'
+        typ = ' × '.join(lean_type(x.type) for x in ends[0]) if merged else 'Unit'
+        lines = [f'let {m} : {typ} ← {wrap} (do'] + ind(body)
+        for i, (n, x) in enumerate(zip(merged, ends[0])):
+            proj = m if len(merged) == 1 else m + ''.join(['.2'] * i) + ('.1' if i < len(merged) - 1 else '')
+            env, line = self.bind(env, n, V(proj, x.type, x.lits))
+            lines.append(line)
+        return lines + self.block(rest, env, tail)
+
     def if_(self, s, rest, env, tail):
+        st = self.static(s.test, env)
+        if st is not None:      # decided by a specialised argument: only the branch taken is translated
+            skipped = s.orelse if st else s.body
+            if skipped:
+                self.notes.append(f'line {s.lineno}: `{ast.unparse(s.test)}` is {st} here; lines '
+                                  f'{skipped[0].lineno}-{skipped[-1].end_lineno} are not translated')
+            return self.block((s.body if st else s.orelse) + rest, env, tail)
         c = self.test(s.test, env)
+        pre = self.take_pre()
         ind = lambda ls: ['  ' + x for x in ls]   # noqa: E731
         if has_return([s]):
             a = self.block(s.body + rest, env, tail)
             b = self.block(s.orelse + rest, env, tail)
-            return [f'if {c} then'] + ind(a) + ['else'] + ind(b)
+            return pre + [f'if {c} then'] + ind(a) + ['else'] + ind(b)
         later = reads(rest) | set(tail.names)
         merged = [n for n in assigned(s.body + s.orelse) if n in later]
         ends = []
@@ -446,8 +790,12 @@ class Fn:
         for n, x, y in zip(merged, ends[0], ends[1]):
             if x.type != y.type:
                 self.fail(s, f'`{n}` is {x.type} on one path and {y.type} on the other')
-        typ = ' × '.join(LEAN_TYPE[x.type] for x in ends[0])
-        lines = [f'let {m} : {typ} := (', f'  if {c} then'] + ind(ind(a)) + ['  else'] + ind(ind(b))
+        typ = ' × '.join(lean_type(x.type) for x in ends[0])
+        if any('←' in ln or 'throw ' in ln for ln in a + b):       # a branch can raise: the merge is a bind
+            a[-1], b[-1] = 'pure ' + a[-1], 'pure ' + b[-1]
+            lines = pre + [f'let {m} : {typ} ← (', f'  if {c} then do'] + ind(ind(a)) + ['  else do'] + ind(ind(b))
+        else:
+            lines = pre + [f'let {m} : {typ} := (', f'  if {c} then'] + ind(ind(a)) + ['  else'] + ind(ind(b))
         lines[-1] += ')'
         for i, (n, x, y) in enumerate(zip(merged, ends[0], ends[1])):
             proj = m if len(merged) == 1 else m + ''.join(['.2'] * i) + ('.1' if i < len(merged) - 1 else '')
@@ -457,50 +805,90 @@ class Fn:
         return lines + self.block(rest, env, tail)
 
     def translate(self):
-        a = self.func.args
-        if [x.arg for x in a.args] != ['self'] or a.vararg or a.kwarg or a.kwonlyargs or a.posonlyargs:
-            self.fail(self.func, 'signature other than (self)')
-        if self.func.decorator_list:
-            self.fail(self.func, 'decorated function')
+        a, t = self.func.args, self.t
+        decos = [ast.unparse(d) for d in self.func.decorator_list]
+        first = {(): ['self'], ('classmethod',): ['cls'], ('staticmethod',): []}.get(tuple(decos)) if t.cls else []
+        names = [x.arg for x in a.args]
+        if first is None or a.vararg or a.kwarg or a.kwonlyargs or a.posonlyargs or names != first + list(t.args or {}):
+            self.fail(self.func, f'signature ({", ".join(names)}) / decorators {decos} differ from the declared ones')
+        defaults = dict(zip(names[len(names) - len(a.defaults):], a.defaults))
+        env = {}
+        for n, typ in (t.args or {}).items():
+            if typ == 'None':       # specialised to the default, which must be None
+                if not (n in defaults and isinstance(defaults[n], ast.Constant) and defaults[n].value is None):
+                    self.fail(self.func, f'argument `{n}` is specialised to None but its default is not None')
+                env[n] = V('()', 'None', None)
+            else:
+                env[n] = self.param(lname(n), typ)
+        self.nargs = len(self.used)
 
         def off_end(env):
             self.fail(self.func, 'a path reaches the end of the function without `return`')
-        body = self.block(self.func.body, {}, Tail([], off_end))
-        return body
+        saved = list(self.used)
+        try:
+            return self.block(self.func.body, env, Tail([], off_end))
+        except NeedMonad:
+            self.monadic, self.used, self.rtype, self.fresh, self.pre, self.notes = True, saved, None, 0, [], []
+            return self.block(self.func.body, env, Tail([], off_end))
 
 
 # ---------------------------------------------------------------- driver
 
 PARAM_DOC = {'TD': 'timedelta, whole seconds', 'PyDate': 'date: year month day', 'OptStr': 'str or None',
-             'PyDateTime': 'datetime: year month day hour minute second', 'Int': 'int', 'Bool': 'bool', 'Str': 'str'}
+             'PyDateTime': 'datetime: year month day hour minute second', 'Int': 'int', 'Bool': 'bool', 'Str': 'str',
+             'StrList': 'list of str'}
+RETURN_DOC = {'Bytes': 'bytes (as the str they encode)', 'TD': 'a timedelta', 'PyDate': 'a date', 'PyTime': 'a time',
+              'PyDateTime': 'a datetime'}
+HEADERS = {
+    'enc': ['/- GENERATED by tools/py2lean.py (called from tools/extract.py) from the function bodies in',
+            '   src/icalendar. Do not edit: regenerated on every run; lean/ICal/Lemmas/Bodies.lean proves each',
+            '   definition equal to the hand-written model.',
+            '   Conventions: str = code points (Str); a bytes value is represented by the str it encodes, so',
+            "   `.encode('utf-8')` is the identity and bytes literals are ASCII; int = Int; `//`, `%`, truthiness,",
+            '   `{x:0N}`, `%s` and timedelta are the definitions of ICal/Model/PyRT.lean.  Every `self.<attr>` and',
+            '   every call of external code is a PARAMETER of the definition, named in its comment. -/',
+            'import ICal.Model.PyRT', 'namespace ICal.Gen.Bodies', 'open ICal ICal.PyRT', ''],
+    'dec': ['/- GENERATED by tools/py2lean.py (called from tools/extract.py) from the DECODER bodies in',
+            '   src/icalendar/prop.py. Do not edit: regenerated on every run; lean/ICal/Lemmas/BodiesDec.lean proves',
+            '   each definition equal to the hand-written model.',
+            '   Conventions as in Gen/Bodies.lean.  A function that can raise is `Py T = Except Exc T`; exceptions',
+            '   come only from the partial runtime functions of ICal/Model/PyRTDec.lean (`int(str)` is the `pyInt`',
+            '   of the hand model, `date/time/datetime(...)` use its `validDate`/`okTime`) and from',
+            '   `raise ValueError(...)`; `try .. except <classes>: raise ValueError` is `remap`/`remapAll`.',
+            '   Arguments, external calls and regex match objects are PARAMETERS, named in each comment. -/',
+            'import ICal.Model.PyRTDec', 'set_option linter.unusedVariables false', 'namespace ICal.Gen.BodiesDec',
+            'open ICal ICal.PyRT', ''],
+    'parser': ['/- GENERATED by tools/py2lean.py (called from tools/extract.py) from function bodies in',
+               '   src/icalendar/parser.py. Do not edit: regenerated on every run; lean/ICal/Lemmas/BodiesParser.lean',
+               '   proves each definition equal to the hand-written model.  Conventions as in Gen/Bodies.lean;',
+               '   `REGEX.search(s)` is a predicate PARAMETER (Str -> Bool), named in each comment. -/',
+               'import ICal.Model.PyRT', 'namespace ICal.Gen.BodiesParser', 'open ICal ICal.PyRT', ''],
+}
+NAMESPACE = {'enc': 'ICal.Gen.Bodies', 'dec': 'ICal.Gen.BodiesDec', 'parser': 'ICal.Gen.BodiesParser'}
 
 
 def comment_safe(s):
     return s.replace('-/', '- /').replace('/-', '/ -')
 
 
-def translate(src_dir):
-    out = ['/- GENERATED by tools/py2lean.py (called from tools/extract.py) from the function bodies in',
-           '   src/icalendar. Do not edit: regenerated on every run; lean/ICal/Lemmas/Bodies.lean proves each',
-           '   definition equal to the hand-written model.',
-           '   Conventions: str = code points (Str); a bytes value is represented by the str it encodes, so',
-           "   `.encode('utf-8')` is the identity and bytes literals are ASCII; int = Int; `//`, `%`, truthiness,",
-           '   `{x:0N}`, `%s` and timedelta are the definitions of ICal/Model/PyRT.lean.  Every `self.<attr>` and',
-           '   every call of external code is a PARAMETER of the definition, named in its comment. -/',
-           'import ICal.Model.PyRT', 'namespace ICal.Gen.Bodies', 'open ICal ICal.PyRT', '']
+def translate(src_dir, group='enc'):
+    out = list(HEADERS[group])
     fps, registry, trees = {}, {}, {}
     for t in TARGETS:
+        if t.group != group:
+            continue
         if t.file not in trees:
             trees[t.file] = X.parse(os.path.join(src_dir, t.file))
-        qual = f'{t.file[:-3]}.{t.cls}.{t.fn}'
+        qual = f'{t.file[:-3]}.' + (f'{t.cls}.' if t.cls else '') + t.fn
         try:
-            cls = X.find_class(trees[t.file], t.cls)
+            cls = X.find_class(trees[t.file], t.cls) if t.cls else None
             func = X.find_func(trees[t.file], t.fn, t.cls)
         except X.Untranslatable as e:
             raise Untranslatable(f'{qual}: {e}')
         fp = X.fingerprint(func)
         fps[qual] = fp
         fn = Fn(t, cls, func, registry, module_bindings(trees[t.file]))
+        fn.tree = trees[t.file]
         try:
             body = fn.translate()
         except Untranslatable as e:
@@ -509,25 +897,43 @@ def translate(src_dir):
             out += [f'/- NOT TRANSLATED `{qual}` (AST fingerprint {fp}): outside the subset:',
                     f'   {comment_safe(str(e))} -/', '']
             continue
-        registry[(t.cls, t.fn)] = Done(t.lean, list(fn.used), fn.rtype)
+        registry[(t.cls, t.fn)] = Done(t.lean, list(fn.used), fn.rtype, fn.monadic, fn.nargs)
         src_of = {p: f'self.{a}' for a, (p, _) in t.self_attrs.items()}
-        src_of.update({res: f'{f}({", ".join(args)})' for f, (args, res, _) in t.externals.items()})
+        src_of.update({lname(a): f'argument {a}' for a in (t.args or {})})
+        for f, e in t.externals.items():
+            if not isinstance(e[0], str):
+                src_of[e[1]] = f'{f}({", ".join(e[0])})'
+            elif e[0] == 'fun':
+                src_of[e[1]] = f'the function {f}'
+            elif e[0] == 'pred':
+                src_of[e[1]] = f'bool({f}(s))'
+            elif e[0] == 'match':
+                src_of[e[1]] = f'{f}(..): None or the groups'
         src_of['self'] = f'self (a {t.cls} is an int)'
-        pdoc = '; '.join(f'`{p}` = `{src_of[p]}` ({PARAM_DOC[ty]})' for p, ty in fn.used) or 'none'
+        pdoc = '; '.join(f'`{p}` = `{src_of.get(p, "parameter of a callee")}` ({PARAM_DOC.get(ty, ty)})'
+                         for p, ty in fn.used) or 'none'
         out.append(f'/-- `{qual}` (AST fingerprint {fp}).  Parameters: {comment_safe(pdoc)}.')
-        out.append(f'    Returns {"bytes (as the str they encode)" if fn.rtype == "Bytes" else fn.rtype.lower()}. -/')
-        sig = ''.join(f' ({p} : {LEAN_TYPE[ty]})' for p, ty in fn.used)
-        out.append(f'def {t.lean}{sig} : {LEAN_TYPE[fn.rtype]} :=')
+        for n, typ in (t.args or {}).items():
+            if typ == 'None':
+                out.append(f'    SPECIALISED to `{n}` = None (its default).')
+        for note in fn.notes:
+            out.append('    ' + comment_safe(note) + '.')
+        rdoc = RETURN_DOC.get(fn.rtype, fn.rtype.lower())
+        out.append(f'    Returns {rdoc}{"; can raise (Py)" if fn.monadic else ""}. -/')
+        sig = ''.join(f' ({p} : {lean_type(ty)})' for p, ty in fn.used)
+        rt = lean_type(fn.rtype)
+        out.append(f'def {t.lean}{sig} : {"Py " + rt if fn.monadic else rt} :=' + (' do' if fn.monadic else ''))
         out += ['  ' + ln for ln in body]
         out.append('')
-    out.append('end ICal.Gen.Bodies')
+    out.append(f'end {NAMESPACE[group]}')
     return '\n'.join(out) + '\n', fps
 
 
 def main(argv):
     src = argv[argv.index('--src') + 1] if '--src' in argv else X.SRC
+    group = argv[argv.index('--group') + 1] if '--group' in argv else 'enc'
     try:
-        text, fps = translate(src)
+        text, fps = translate(src, group)
     except (X.Untranslatable, SyntaxError, OSError) as e:
         print(f'{type(e).__name__}: {e}', file=sys.stderr)
         return 3
